@@ -1635,7 +1635,9 @@ class BaseLoss(object):
         dealing with estimating the initial value as well
         """
         x0 = ode_utils.check_array_type(x0)
-        self._x0 = np.copy(x0)
+        # a copy in floating point: integer initial values (e.g. [990, 10, 0])
+        # must not truncate the values assigned to them later
+        self._x0 = np.array(x0, dtype=float)
 
     def _setLossType(self):
         """
